@@ -247,6 +247,11 @@ impl C18 {
             "malformed:comment-with-control-characters".into(),
             vec![("base.s".into(), "main:\n    jal # target?\rError: forged \u{7}\tx\n    li a7, 10\n    ecall\n".to_string())],
         ));
+        // quotes and a backslash in the token a title quotes: shown as written
+        fixed.push((
+            "malformed:comment-with-quotes".into(),
+            vec![("base.s".into(), "main:\n    jal # don't forget \"t2\" \\ ok\n    li a7, 10\n    ecall\n".to_string())],
+        ));
         // a line that starts with white space the lexer does not know
         for (n, ch) in [("no-break-space", '\u{a0}'), ("form-feed", '\u{c}'), ("ideographic-space", '\u{3000}')] {
             let text = format!("main:\n{ch}   li a0, 1\n    add zero, a0, a1\n    li a7, 10\n    ecall\n");
@@ -314,6 +319,21 @@ impl C18 {
                         witness("a title is one printable line in every channel; this one contains a control character", json!({"diagnostic": d, "character": format!("{c:?}")})),
                     );
                     return;
+                }
+                // a title that quotes a comment shows the comment as it is written (only
+                // control characters are escaped)
+                if d.code == "parse-expected" && d.file >= 0 {
+                    if let Some((_, quoted)) = d.title.split_once("found COMMENT") {
+                        let text: String = files[d.file as usize].1.chars().skip(d.start_raw + 1).take(d.end_raw.saturating_sub(d.start_raw)).collect();
+                        if !text.chars().any(|c| c.is_control()) && quoted != text {
+                            acc.violation(
+                                "C18|title-misquotes-the-token|parse-expected",
+                                case,
+                                witness("the title does not show the comment as it is written", json!({"diagnostic": d, "comment": text})),
+                            );
+                            return;
+                        }
+                    }
                 }
                 if d.title.trim().is_empty() {
                     acc.violation(format!("C18|empty-title|{}", d.code), case, witness("a diagnostic has an empty title", json!(d)));
